@@ -341,3 +341,372 @@ def net_increment_before(mod: Module, fn: ast.AST, node: ast.AST, attr_text: str
             break
         child = p
     return total
+
+
+# --------------------------------------------------------------------------- round 3 helpers (rules ab .. af of checks/c03.py)
+
+
+def tri_eval(e: ast.expr, atom) -> Optional[bool]:
+    """three-valued value of a boolean expression when `atom(sub-expression)` gives the value of the sub-expressions it knows
+    (True / False) and None for the others: and / or / not are evaluated by Kleene's tables"""
+    v = atom(e)
+    if v is not None:
+        return v
+    if isinstance(e, ast.UnaryOp) and isinstance(e.op, ast.Not):
+        v = tri_eval(e.operand, atom)
+        return None if v is None else (not v)
+    if isinstance(e, ast.BoolOp):
+        vals = [tri_eval(x, atom) for x in e.values]
+        if isinstance(e.op, ast.And):
+            if any(x is False for x in vals):
+                return False
+            return True if all(x is True for x in vals) else None
+        if any(x is True for x in vals):
+            return True
+        return False if all(x is False for x in vals) else None
+    return None
+
+
+def method_call_sites(mods: list[Module], name: str) -> list[tuple[Module, str, ast.FunctionDef, ast.Call]]:
+    """every `self.<name>(...)` / `super(...).<name>(...)` call in the functions of `mods`"""
+    out = []
+    for mod in mods:
+        for q, f in mod.functions():
+            for c in own_nodes(f):
+                if isinstance(c, ast.Call) and isinstance(c.func, ast.Attribute) and c.func.attr == name:
+                    r = c.func.value
+                    if (isinstance(r, ast.Name) and r.id == "self") or (isinstance(r, ast.Call) and isinstance(r.func, ast.Name) and r.func.id == "super"):
+                        out.append((mod, q, f, c))
+    return out
+
+
+def arg_of(call: ast.Call, fn: ast.AST, pname: str) -> Optional[ast.expr]:
+    """the expression a bound-method call passes for parameter `pname` of fn (self is parameter 0)"""
+    for k in call.keywords:
+        if k.arg == pname:
+            return k.value
+    ps = params(fn)[1:]
+    if pname in ps and ps.index(pname) < len(call.args) and not any(isinstance(a, ast.Starred) for a in call.args):
+        return call.args[ps.index(pname)]
+    return None
+
+
+def enclosing_validator(mod: Module, fn: ast.AST, call: ast.Call, arg: ast.expr, accept=None) -> Optional[tuple[ast.If, str]]:
+    """the innermost `if self.<V>(<same arg>):` whose body holds `call` (and, if given, accept(V) holds): (the if, V)"""
+    child: ast.AST = call
+    for p in mod.parents(call):
+        if isinstance(p, ast.If) and any(child is s for s in p.body):
+            t = p.test
+            if isinstance(t, ast.Call) and isinstance(t.func, ast.Attribute) and isinstance(t.func.value, ast.Name) and t.func.value.id == "self" \
+                    and t.args and norm(t.args[0]) == norm(arg) and (accept is None or accept(t.func.attr)):
+                return p, t.func.attr
+        if p is fn:
+            break
+        child = p
+    return None
+
+
+def returns_falsy(stmts: list[ast.stmt]) -> bool:
+    """the block ends by returning False / None"""
+    if not stmts:
+        return False
+    last = stmts[-1]
+    return isinstance(last, ast.Return) and (last.value is None or (isinstance(last.value, ast.Constant) and last.value.value in (False, None)))
+
+
+def namedtuple_fields(mod: Module, name: str) -> list[str]:
+    """fields of a module-level `<name> = namedtuple("<name>", "a, b, ..." | [..])`"""
+    for st in mod.tree.body:
+        if isinstance(st, ast.Assign) and len(st.targets) == 1 and isinstance(st.targets[0], ast.Name) and st.targets[0].id == name and isinstance(st.value, ast.Call) \
+                and norm(st.value.func).split(".")[-1] == "namedtuple" and len(st.value.args) >= 2:
+            spec = st.value.args[1]
+            try:
+                val = ast.literal_eval(spec)
+            except ValueError:
+                break
+            if isinstance(val, str):
+                return [x for x in val.replace(",", " ").split() if x]
+            return [str(x) for x in val]
+    raise AnalysisError("%s: namedtuple %s not found" % (mod.rel, name))
+
+
+# --------------------------------------------------------------------------- escape maps (rule b), call-site facts (rule t), path facts (rule w)
+
+
+def _const_str_pair_chain(e: ast.AST) -> tuple[ast.AST, list[tuple[str, str]]]:
+    """X.replace(a, b).replace(c, d) -> (X, [(a, b), (c, d)]) in the order of application; constant arguments only"""
+    chain: list[tuple[str, str]] = []
+    cur = e
+    while isinstance(cur, ast.Call) and isinstance(cur.func, ast.Attribute) and cur.func.attr == "replace" and len(cur.args) == 2 and not cur.keywords \
+            and all(isinstance(a, ast.Constant) and isinstance(a.value, str) for a in cur.args):
+        chain.append((cur.args[0].value, cur.args[1].value))  # type: ignore[attr-defined]
+        cur = cur.func.value
+    chain.reverse()
+    return cur, chain
+
+
+def _binding_of(mod: Module, fn: Optional[ast.AST], name: str) -> Optional[ast.expr]:
+    """the one expression the name is bound to where fn reads it: its only local binding, else its only binding at module level
+    (a name bound twice, or re-bound anywhere else in the module, is not resolved)"""
+    if fn is not None:
+        loc = local_defs(fn, name)
+        if name in params(fn) or len(loc) > 1:
+            return None
+        if loc:
+            return loc[0]
+    top = [st for st in mod.tree.body if isinstance(st, (ast.Assign, ast.AnnAssign)) and st.value is not None
+           and any(isinstance(t, ast.Name) and t.id == name for t in (st.targets if isinstance(st, ast.Assign) else [st.target]))]
+    stores = [n for n in ast.walk(mod.tree) if isinstance(n, ast.Name) and n.id == name and isinstance(n.ctx, (ast.Store, ast.Del))]
+    if len(top) == 1 and len(stores) == 1:
+        return top[0].value
+    return None
+
+
+def _char_key(e: ast.expr) -> Optional[str]:
+    """the character a key of a translation table stands for: 34, ord('"')"""
+    if isinstance(e, ast.Constant) and isinstance(e.value, int) and not isinstance(e.value, bool) and 0 <= e.value < 0x110000:
+        return chr(e.value)
+    if isinstance(e, ast.Call) and isinstance(e.func, ast.Name) and e.func.id == "ord" and len(e.args) == 1 and isinstance(e.args[0], ast.Constant) \
+            and isinstance(e.args[0].value, str) and len(e.args[0].value) == 1:
+        return e.args[0].value
+    return None
+
+
+def _table_value(e: ast.expr) -> Optional[str]:
+    if isinstance(e, ast.Constant):
+        if isinstance(e.value, str):
+            return e.value
+        if e.value is None:
+            return ""  # the character is deleted
+        if isinstance(e.value, int) and not isinstance(e.value, bool) and 0 <= e.value < 0x110000:
+            return chr(e.value)
+    return None
+
+
+def char_table(mod: Module, fn: Optional[ast.AST], e: ast.expr, str_keys: bool, depth: int = 4) -> Optional[dict[str, str]]:
+    """the constant character -> replacement map an expression evaluates to, or None if that cannot be told:
+    a dict display, `str.maketrans(<dict>)`, `str.maketrans("abc", "xyz"[, "deleted"])`, `dict(<display>)`, or a name bound once to one of these
+    (in the function or at module level).  `str_keys`: one-character string keys count (a table handed to str.translate *directly* is looked
+    up by code point, so there they do not; through str.maketrans, or in a table indexed with the characters themselves, they do)."""
+    if depth <= 0:
+        return None
+    if isinstance(e, ast.Name):
+        v = _binding_of(mod, fn, e.id)
+        return char_table(mod, fn, v, str_keys, depth - 1) if v is not None else None
+    if isinstance(e, ast.Dict):
+        out: dict[str, str] = {}
+        for k, v in zip(e.keys, e.values):
+            if k is None:
+                return None
+            key = _char_key(k)
+            if key is None and isinstance(k, ast.Constant) and isinstance(k.value, str):
+                if not str_keys:
+                    continue  # never matched by str.translate
+                if len(k.value) != 1:
+                    return None
+                key = k.value
+            val = _table_value(v)
+            if key is None or val is None:
+                return None
+            out[key] = val
+        return out
+    if isinstance(e, ast.Call) and not e.keywords:
+        fname = norm(e.func)
+        if fname == "dict" and len(e.args) == 1:
+            return char_table(mod, fn, e.args[0], str_keys, depth - 1)
+        if isinstance(e.func, ast.Attribute) and e.func.attr == "maketrans" and (norm(e.func.value) in ("str", "bytes") or isinstance(e.func.value, ast.Constant)):
+            if len(e.args) == 1:
+                return char_table(mod, fn, e.args[0], True, depth - 1)
+            if len(e.args) in (2, 3) and all(isinstance(a, ast.Constant) and isinstance(a.value, str) for a in e.args):
+                a, b = e.args[0].value, e.args[1].value  # type: ignore[attr-defined]
+                if len(a) != len(b):
+                    return None
+                out = dict(zip(a, b))
+                if len(e.args) == 3:
+                    for ch in e.args[2].value:  # type: ignore[attr-defined]
+                        out[ch] = ""
+                return out
+    return None
+
+
+class EscapeMap:
+    """one place where a function rewrites characters of a string by a constant map.  `pairs` in the order of application;
+    `simultaneous`: the map is applied in one pass over the string (str.translate, a per-character table lookup), so what one
+    replacement writes is never read by another - a chain of str.replace is sequential"""
+
+    def __init__(self, node: ast.AST, pairs: list[tuple[str, str]], simultaneous: bool, how: str):
+        self.node, self.pairs, self.simultaneous, self.how = node, pairs, simultaneous, how
+
+    def as_sequence(self) -> list[tuple[str, str]]:
+        """a sequence of replacements with the same result as the map.  For a one-pass map over single characters the only order that
+        matters is the backslash's: put first, it doubles the backslashes of the input and none of those the other replacements write"""
+        if not self.simultaneous:
+            return list(self.pairs)
+        return sorted(self.pairs, key=lambda p: p[0] != "\\")
+
+
+def escape_maps(mod: Module, fn: ast.AST, min_chain: int = 2, within: Optional[list] = None) -> list[EscapeMap]:
+    """the escape maps in fn: maximal chains of at least `min_chain` constant str.replace calls; `<s>.translate(<table>)` with a table that
+    evaluates to a constant map; `"".join(<table>.get(c, c) for c in <s>)`.  A `.translate()` whose table cannot be evaluated is an
+    AnalysisError (an unknown map is neither right nor wrong).  `within`: only these statements of fn are searched.  In source order."""
+    out: list[EscapeMap] = []
+    inner_of_chain: set[int] = set()
+    nodes = sorted((n for root in ([fn] if within is None else within) for n in ast.walk(root) if isinstance(n, ast.Call)), key=lambda n: (n.lineno, n.col_offset, -(n.end_lineno or 0), -(n.end_col_offset or 0)))
+    for n in nodes:
+        if id(n) in inner_of_chain:
+            continue
+        base, ch = _const_str_pair_chain(n)
+        if len(ch) >= min_chain:
+            cur: ast.AST = n
+            while cur is not base:
+                inner_of_chain.add(id(cur))
+                cur = cur.func.value  # type: ignore[attr-defined]
+            out.append(EscapeMap(n, ch, False, "chain of str.replace"))
+            continue
+        if isinstance(n.func, ast.Attribute) and n.func.attr == "translate" and len(n.args) == 1 and not n.keywords:
+            tab = char_table(mod, fn, n.args[0], False)
+            if tab is None:
+                raise AnalysisError("%s: the table of %s could not be evaluated" % (mod.rel, norm(n)[:80]))
+            out.append(EscapeMap(n, list(tab.items()), True, "str.translate, one pass"))
+            continue
+        if isinstance(n.func, ast.Attribute) and n.func.attr == "join" and len(n.args) == 1 and isinstance(n.args[0], (ast.GeneratorExp, ast.ListComp)) \
+                and len(n.args[0].generators) == 1 and isinstance(n.args[0].generators[0].target, ast.Name) and not n.args[0].generators[0].ifs:
+            var = n.args[0].generators[0].target.id
+            elt = n.args[0].elt
+            if isinstance(elt, ast.Call) and isinstance(elt.func, ast.Attribute) and elt.func.attr == "get" and len(elt.args) == 2 and not elt.keywords \
+                    and all(isinstance(a, ast.Name) and a.id == var for a in elt.args):
+                tab = char_table(mod, fn, elt.func.value, True)
+                if tab is not None:
+                    out.append(EscapeMap(n, list(tab.items()), True, "per-character table lookup, one pass"))
+    return out
+
+
+def module_call_closure(mod: Module, roots: list[str]) -> list[str]:
+    """qualified names of the functions of `mod` reachable from `roots` through calls by plain name of module-level functions and
+    `self.m()` calls of methods of the same class (roots first, then in order of discovery)"""
+    seen: list[str] = []
+    todo = [r for r in roots if mod.has(r)]
+    while todo:
+        q = todo.pop(0)
+        if q in seen:
+            continue
+        seen.append(q)
+        f = mod.defs[q]
+        cls = q.rsplit(".", 1)[0] if "." in q else None
+        for c in ast.walk(f):
+            if not isinstance(c, ast.Call):
+                continue
+            if isinstance(c.func, ast.Name) and mod.has(c.func.id) and isinstance(mod.defs[c.func.id], (ast.FunctionDef, ast.AsyncFunctionDef)):
+                todo.append(c.func.id)
+            elif cls and isinstance(c.func, ast.Attribute) and isinstance(c.func.value, ast.Name) and c.func.value.id == "self" and mod.has(cls + "." + c.func.attr):
+                todo.append(cls + "." + c.func.attr)
+    return seen
+
+
+def counter_bounds(cg: "ClassGraph", inner: list, facts_of: dict):
+    """-> f(method, call) = {counter text: raise}: the `self.<attr>` counters known to be within a bound when `call` (an edge of the call
+    cycle whose edges are `inner`) is made, with the least net amount the counter was raised since the comparison.
+    For every method on the cycle the counters are computed that are within a bound whenever the method is entered *from the cycle* (a
+    pass round the cycle enters it through one of these calls).  A counter is within a bound at a call if a comparison that says so holds at
+    the call itself, or held at every such entry of the calling method (which then must not assign the counter outright); the raise is
+    counted along the straight line to the call.  Least fixed point: nothing is assumed about a method before all its callers are known."""
+    def local(a, c) -> dict[str, int]:
+        mod, f = cg.defs[a]
+        out: dict[str, int] = {}
+        for fact in facts_of[id(c)]:
+            for x in ast.walk(fact[0]):
+                if isinstance(x, ast.Attribute) and isinstance(x.value, ast.Name) and x.value.id == "self":
+                    t = norm(x)
+                    if within_bound(fact, t):
+                        out[t] = net_increment_before(mod, f, c, t)
+        return out
+
+    def assigns_outright(a, t: str) -> bool:
+        f = cg.defs[a][1]
+        for n in own_nodes(f):
+            tg = n.targets if isinstance(n, ast.Assign) else [n.target] if isinstance(n, (ast.AnnAssign, ast.NamedExpr)) else []
+            if any(norm(x) == t for x in tg):
+                return True
+            if isinstance(n, ast.AugAssign) and norm(n.target) == t and not (isinstance(n.op, (ast.Add, ast.Sub)) and _const_int(n.value) is not None):
+                return True
+        return False
+
+    entry: dict = {}
+
+    def at_call(a, c) -> dict[str, int]:
+        mod, f = cg.defs[a]
+        out = {t: k + net_increment_before(mod, f, c, t) for t, k in entry.get(a, {}).items() if not assigns_outright(a, t)}
+        out.update(local(a, c))  # a comparison at the call itself is the most recent one
+        return out
+
+    nodes = sorted({b for _, _, b in inner})
+    for _ in range(len(nodes) + 2):
+        changed = False
+        for b in nodes:
+            ins = [at_call(a, c) for a, c, b2 in inner if b2 == b]
+            common = set(ins[0]).intersection(*[set(d) for d in ins[1:]]) if ins else set()
+            new = {t: max(-9, min(d[t] for d in ins)) for t in common}
+            if new != entry.get(b, {}):
+                entry[b] = new
+                changed = True
+        if not changed:
+            break
+    return at_call
+
+
+def reachable_assuming(fn: ast.AST, target_stmt_or_expr: ast.AST, mod: Module, atom) -> bool:
+    """can control reach the statement that evaluates `target` from the entry of fn in a state where `atom(expr)` gives the truth value of
+    the conditions it knows (True / False; None = unknown)?  Branches of `if` / `while` whose test has, by Kleene's tables, the other
+    value are not taken.  (Exception edges stay: any statement of a try body may raise.)"""
+    from .cfg import CFG
+
+    g = CFG(fn)
+    tgt = g.node_of(target_stmt_or_expr, mod)
+    seen: set[int] = set()
+    stack = [g.entry]
+    while stack:
+        n = stack.pop()
+        if n in seen:
+            continue
+        seen.add(n)
+        if n == tgt:
+            return True
+        node = g.nodes[n]
+        verdict = None
+        if node.kind == "test" and node.ast is not None:
+            verdict = tri_eval(node.ast.test, atom)  # type: ignore[attr-defined]
+        for m in g.succ[n]:
+            lab = g.edge_label.get((n, m), "")
+            if verdict is not None and lab != "exc":
+                if (lab == "true") != verdict:
+                    continue
+            stack.append(m)
+    return False
+
+
+def validators_of(mod: Module, fn: ast.AST, call: ast.Call, arg: Optional[ast.expr], sites_of, depth: int = 3, _seen: frozenset = frozenset(), accept=None) -> Optional[set[str]]:
+    """the validator methods V such that `call` (made in fn) is made only for an `arg` that `self.V(arg)` has accepted:
+    * the call sits in the body of an `if self.V(<same expression>):` of fn, or
+    * `arg` is a parameter of fn that fn never re-binds, and every call of fn (`sites_of(fn)` -> [(module, function, call)], the calls
+      the rule knows of) passes for it an expression validated in this sense at that call (so the test may sit one or more
+      methods up from the walk it protects).
+    None if some way to the call is not validated.  `accept(V)`: which methods count as validators (default: any)."""
+    if arg is None:
+        return None
+    ev = enclosing_validator(mod, fn, call, arg, accept)
+    if ev is not None:
+        return {ev[1]}
+    if depth <= 0 or not isinstance(arg, ast.Name) or arg.id not in params(fn)[1:] or (id(fn), arg.id) in _seen:
+        return None
+    if any(isinstance(k, ast.Name) and k.id == arg.id and isinstance(k.ctx, (ast.Store, ast.Del)) for k in own_nodes(fn)):
+        return None
+    sites = sites_of(fn)
+    if not sites:
+        return None
+    out: set[str] = set()
+    for mod2, fn2, call2 in sites:
+        r = validators_of(mod2, fn2, call2, arg_of(call2, fn, arg.id), sites_of, depth - 1, _seen | {(id(fn), arg.id)}, accept)
+        if r is None:
+            return None
+        out |= r
+    return out
